@@ -286,6 +286,10 @@ def one_query(ctx, spec, sj, L, obj, q, initial):
 
 def check_object(ctx, R, spec, sj, L, state, rng):
     qs = gen_queries(rng, L)
+    if spec[0] == 'set':
+        # the explicit dates of the definition are interesting arguments whether or not they ended up as members
+        for d in list(spec[2]) + list(spec[4]):
+            qs += [('contains', d), ('after', d, True), ('before', d, True)]
     try:
         if state in ('uncached', 'complete', 'fresh-sequence', 'late-cached', 'late-uncached', 'many-consumers', 'nested-cached'):
             # one object, all queries in random order: answers must not depend on which queries ran before
@@ -416,6 +420,10 @@ def directed_specs(R):
     out.append(('rule', {'freq': R.YEARLY, 'dtstart': st, 'bymonth': 2, 'bymonthday': 30, 'until': st + D.timedelta(days=3000)}))
     out.append(('set', [{'freq': R.DAILY, 'dtstart': st, 'count': 10}, {'freq': R.DAILY, 'dtstart': st, 'count': 10}], [st, st + D.timedelta(days=30)], [], []))
     out.append(('set', [{'freq': R.DAILY, 'dtstart': st, 'count': 5}], [], [{'freq': R.DAILY, 'dtstart': st, 'count': 5}], []))
+    # explicit dates removed by an exclusion rule (not by an exclusion date), and explicit dates that survive next to them
+    out.append(('set', [{'freq': R.WEEKLY, 'dtstart': st, 'count': 6}], [st + D.timedelta(days=2), st + D.timedelta(days=3), st + D.timedelta(days=40)],
+                [{'freq': R.DAILY, 'dtstart': st + D.timedelta(days=2), 'count': 1}, {'freq': R.DAILY, 'dtstart': st + D.timedelta(days=40), 'count': 3}], []))
+    out.append(('set', [], [st, st + D.timedelta(days=1), st + D.timedelta(days=2)], [{'freq': R.DAILY, 'dtstart': st, 'interval': 2, 'count': 2}], [st + D.timedelta(days=1)]))
     out.append(('set', [{'freq': R.DAILY, 'dtstart': st, 'count': 20, 'bysetpos': 1, 'byhour': [9, 21]}], [], [], [st + D.timedelta(days=3)]))
     return out
 
